@@ -164,7 +164,7 @@ def replay_impl_call(call):
 
 
 def run_link_iter(frames, sr, memory=0, link_strategy=None, max_size=None, adaptive=None, predictor=None,
-                  enumerate_t=None, neighbor_strategy=None):
+                  enumerate_t=None, neighbor_strategy=None, bystander=False):
     """Drive trackpy.link_iter frame by frame.  Returns list of label lists,
     None at the step that raised SubnetOversizeException (and stops there)."""
     import trackpy as tp
@@ -190,9 +190,16 @@ def run_link_iter(frames, sr, memory=0, link_strategy=None, max_size=None, adapt
         else:
             it = iter([f.copy() for f in frames])
         gen = tp.link_iter(it, sr_float(sr), **kw)
+        by = None
+        if bystander:
+            # another linking job alive in the same process, started after this one and advanced between its steps:
+            # what a label means for THIS movie must not depend on it
+            by = tp.link_iter(iter([np.array([[0., 0.], [9., 9.]]), np.array([[0., 1.], [9., 8.], [30., 30.]])] * 40), 3.0, memory=1)
         while True:
             try:
                 t, ids = next(gen)
+                if by is not None:
+                    next(by)
                 out.append([int(i) for i in ids])
             except StopIteration:
                 break
